@@ -42,6 +42,7 @@ import (
 
 	tmmath "github.com/tendermint/tendermint/libs/math"
 	"github.com/tendermint/tendermint/light"
+	tmproto "github.com/tendermint/tendermint/proto/tendermint/types"
 	tmversion "github.com/tendermint/tendermint/proto/tendermint/version"
 	"github.com/tendermint/tendermint/types"
 	"github.com/tendermint/tendermint/version"
@@ -382,6 +383,9 @@ func (g *gen) runRelabel(idx int, st stats) {
 				v.muts = append(v.muts, "tvals:overlap")
 			}
 		}
+		if wr := c.Rand("wire-relabel", idx*relabelVariants+vi); wr.Intn(3) == 0 {
+			g.applyWire(wr, b, vi, v, loc)
+		}
 		vs[vi] = v
 		fullBefore, lightBefore, trustBefore := loc["VerifyCommit.accept=true"], loc["VerifyCommitLight.accept=true"], loc["VerifyCommitLightTrusting.accept=true"]
 		g.evaluate(b, vi, v, cache, loc)
@@ -404,49 +408,108 @@ func (g *gen) runRelabel(idx int, st stats) {
 		return &types.SignedHeader{Header: th, Commit: &types.Commit{Height: h, BlockID: types.BlockID{Hash: th.Hash()}}}
 	}
 	now := t0.Add(20 * time.Second)
-	tr := ref.TallyCommitCached(cache, b.chainID, vals, b.blockID, b.height, b.commit)
 	hashMatches := bytes.Equal(b.blockID.Hash, hh)
 	wf := wellFormedID(b.blockID)
 	hdrJ := map[string]interface{}{"height": hdr.Height, "time": hdr.Time.Format(time.RFC3339Nano), "app_hash": fmt.Sprintf("%x", hdr.AppHash),
 		"validators_hash": fmt.Sprintf("%x", vh), "header_hash": fmt.Sprintf("%x", hh), "trusted_time": t0.Format(time.RFC3339Nano), "now": now.Format(time.RFC3339Nano)}
-	oracleJ := func(extra map[string]interface{}) map[string]interface{} {
-		m := map[string]interface{}{"header": hdrJ, "oracle": map[string]interface{}{"total": tr.Total.String(), "for_block": tr.ForBlock.String(),
-			"all_non_absent_valid": tr.AllNonAbsentValid, "structural": fmt.Sprint(tr.Structural), "accepts": tr.OK(), "commit_hash_is_header_hash": hashMatches}}
-		for k, x := range extra {
-			m[k] = x
+
+	// untrusted: what the light client is handed.  In wire mode the whole light
+	// block (signed header + the forged validator-set message) goes through
+	// LightBlockFromProto; if that refuses it, the separately decoded set is used.
+	untrusted := func(vi int, v *variant) (*types.SignedHeader, *types.ValidatorSet, string) {
+		if v.wireVP == nil {
+			return sh, v.vals, "local"
 		}
-		return m
+		bz, err := (&tmproto.LightBlock{SignedHeader: sh.ToProto(), ValidatorSet: v.wireVP}).Marshal()
+		if err != nil {
+			panic(err)
+		}
+		pb := new(tmproto.LightBlock)
+		if err := pb.Unmarshal(bz); err != nil {
+			panic(err)
+		}
+		var lb *types.LightBlock
+		ok, desc, _ := call(func() error {
+			var e error
+			lb, e = types.LightBlockFromProto(pb)
+			return e
+		})
+		if !ok || lb.SignedHeader == nil || lb.ValidatorSet == nil {
+			loc["wire.LightBlockFromProto.rejected"]++
+			if wf {
+				loc["wire.LightBlockFromProto.rejected-with-well-formed-block-id: "+errClass(desc)]++
+			}
+			return sh, v.vals, "ValidatorSetFromProto"
+		}
+		loc["wire.LightBlockFromProto.accepted"]++
+		sum := new(big.Int)
+		for _, x := range v.wireVP.Validators {
+			sum.Add(sum, bi(x.VotingPower))
+		}
+		g.checkTotal("LightBlockFromProto", lb.ValidatorSet, v.wireVP, sum, v.muts, map[string]interface{}{"stream": b.stream, "case": b.idx, "variant": vi, "seed": c.Seed}, loc)
+		return lb.SignedHeader, lb.ValidatorSet, "LightBlockFromProto"
+	}
+	tally := func(v *variant) (ref.TallyResult, func(map[string]interface{}) map[string]interface{}) {
+		ov := v.vals
+		if v.ovals != nil {
+			ov = v.ovals
+		}
+		tr := ref.TallyCommitCached(cache, b.chainID, ov, b.blockID, b.height, b.commit)
+		return tr, func(extra map[string]interface{}) map[string]interface{} {
+			m := map[string]interface{}{"header": hdrJ, "oracle": map[string]interface{}{"total": tr.Total.String(), "for_block": tr.ForBlock.String(),
+				"all_non_absent_valid": tr.AllNonAbsentValid, "structural": fmt.Sprint(tr.Structural), "accepts": tr.OK(), "commit_hash_is_header_hash": hashMatches}}
+			for k, x := range extra {
+				m[k] = x
+			}
+			return m
+		}
 	}
 
-	adjOK, adjDesc, _ := call(func() error {
-		return light.VerifyAdjacent(mkTrusted(b.height-1), sh, vals, time.Hour, now, 10*time.Second)
-	})
-	c.Eval()
-	loc[fmt.Sprintf("light.VerifyAdjacent.accept=%v", adjOK)]++
-	loc["light.VerifyAdjacent.verdict."+errClass(adjDesc)]++
-	if adjOK && !(tr.OK() && hashMatches) {
-		key := "light.VerifyAdjacent-accepts-insufficient-valid-power"
-		if tr.OK() {
-			key = "light.VerifyAdjacent-accepts-commit-for-another-block"
+	for _, vi := range []int{0, 1} {
+		v := vs[vi]
+		tr, oracleJ := tally(v)
+		ush, uvals, via := untrusted(vi, v)
+		adjOK, adjDesc, _ := call(func() error {
+			return light.VerifyAdjacent(mkTrusted(b.height-1), ush, uvals, time.Hour, now, 10*time.Second)
+		})
+		c.Eval()
+		loc[fmt.Sprintf("light.VerifyAdjacent.accept=%v", adjOK)]++
+		loc["light.VerifyAdjacent.verdict."+errClass(adjDesc)]++
+		loc["light.VerifyAdjacent.untrusted-set-via."+via]++
+		if adjOK && !(tr.OK() && hashMatches) {
+			key := "light.VerifyAdjacent-accepts-insufficient-valid-power"
+			if tr.OK() {
+				key = "light.VerifyAdjacent-accepts-commit-for-another-block"
+			}
+			c.Violation(key, fmt.Sprintf("light.VerifyAdjacent returned nil for a header whose commit has valid for-block power %s of %s over exactly (chain, height, round, commit.BlockID); family: %s, block id shape: %s, set via %s %v",
+				tr.ForBlock, tr.Total, fam, shape, via, v.muts), g.witness(b, vi, v, oracleJ(map[string]interface{}{"light.VerifyAdjacent": adjDesc, "untrusted_set_via": via})))
 		}
-		c.Violation(key, fmt.Sprintf("light.VerifyAdjacent returned nil for a header whose commit has valid for-block power %s of %s over exactly (chain, height, round, commit.BlockID); family: %s, block id shape: %s",
-			tr.ForBlock, tr.Total, fam, shape), g.witness(b, 0, vs[0], oracleJ(map[string]interface{}{"light.VerifyAdjacent": adjDesc})))
+		if !adjOK && tr.OK() && tr.AllNonAbsentValid && hashMatches && wf {
+			loc["light.VerifyAdjacent.rejected-although-reference-accepts(expected 0)"]++
+		}
+		c.Distinct("light-class", "adjacent", fam, shape, clsA, clsB, via, adjOK)
 	}
-	if !adjOK && tr.OK() && tr.AllNonAbsentValid && hashMatches && wf {
-		loc["light.VerifyAdjacent.rejected-although-reference-accepts(expected 0)"]++
-	}
-	c.Distinct("light-class", "adjacent", fam, shape, clsA, clsB, adjOK)
 
 	for _, vi := range []int{0, 2} {
 		v := vs[vi]
-		tt := ref.TallyCommitTrustingDetail(cache, b.chainID, v.tvals, b.commit)
+		tr, oracleJ := tally(v)
+		otv := v.tvals
+		if v.otvals != nil {
+			otv = v.otvals
+		}
+		tt := ref.TallyCommitTrustingDetail(cache, b.chainID, otv, b.commit)
 		twant := ref.FractionExceeded(tt.ForBlock, tt.Total, v.tl.Numerator, v.tl.Denominator)
+		ush, uvals, via := untrusted(vi, v)
 		nonOK, nonDesc, _ := call(func() error {
-			return light.VerifyNonAdjacent(mkTrusted(b.height-2), v.tvals, sh, vals, time.Hour, now, 10*time.Second, v.tl)
+			return light.VerifyNonAdjacent(mkTrusted(b.height-2), v.tvals, ush, uvals, time.Hour, now, 10*time.Second, v.tl)
 		})
 		c.Eval()
 		loc[fmt.Sprintf("light.VerifyNonAdjacent.accept=%v", nonOK)]++
 		loc["light.VerifyNonAdjacent.verdict."+errClass(nonDesc)]++
+		loc["light.VerifyNonAdjacent.untrusted-set-via."+via]++
+		if v.otvals != nil {
+			loc["light.VerifyNonAdjacent.trusted-set-decoded-from-forged-message"]++
+		}
 		if nonOK && !(tr.OK() && hashMatches && twant) {
 			key := "light.VerifyNonAdjacent-accepts-insufficient-valid-power"
 			switch {
@@ -455,15 +518,16 @@ func (g *gen) runRelabel(idx int, st stats) {
 			case tr.OK():
 				key = "light.VerifyNonAdjacent-accepts-commit-for-another-block"
 			}
-			c.Violation(key, fmt.Sprintf("light.VerifyNonAdjacent(%d/%d) returned nil: new set has valid for-block power %s of %s, trusted set %s of %s, over exactly (chain, height, round, commit.BlockID); family: %s, block id shape: %s",
-				v.tl.Numerator, v.tl.Denominator, tr.ForBlock, tr.Total, tt.ForBlock, tt.Total, fam, shape),
-				g.witness(b, vi, v, oracleJ(map[string]interface{}{"light.VerifyNonAdjacent": nonDesc, "oracle_trusting": map[string]interface{}{"total": tt.Total.String(), "for_block": tt.ForBlock.String(), "accepts": twant}})))
+			c.Violation(key, fmt.Sprintf("light.VerifyNonAdjacent(%d/%d) returned nil: new set has valid for-block power %s of %s, trusted set %s of %s, over exactly (chain, height, round, commit.BlockID); family: %s, block id shape: %s, set via %s %v",
+				v.tl.Numerator, v.tl.Denominator, tr.ForBlock, tr.Total, tt.ForBlock, tt.Total, fam, shape, via, v.muts),
+				g.witness(b, vi, v, oracleJ(map[string]interface{}{"light.VerifyNonAdjacent": nonDesc, "untrusted_set_via": via,
+					"oracle_trusting": map[string]interface{}{"total": tt.Total.String(), "for_block": tt.ForBlock.String(), "accepts": twant}})))
 		}
 		prod := new(big.Int).Mul(new(big.Int).SetUint64(v.tl.Numerator), tt.Total)
 		if !nonOK && tr.OK() && tr.AllNonAbsentValid && hashMatches && wf && twant && tt.AllValid && !tt.DoubleSigner &&
 			fitsInt64(v.tl.Numerator) && fitsInt64(v.tl.Denominator) && prod.IsInt64() {
 			loc["light.VerifyNonAdjacent.rejected-although-reference-accepts(expected 0)"]++
 		}
-		c.Distinct("light-class", "non-adjacent", fam, shape, clsA, clsB, twant, nonOK)
+		c.Distinct("light-class", "non-adjacent", fam, shape, clsA, clsB, via, twant, nonOK)
 	}
 }
